@@ -12,6 +12,22 @@ trap 'git -C /repo worktree remove --force $W >/dev/null 2>&1; rm -rf $W' EXIT
 cd $W
 git apply $SRC/patch.diff || { echo "PATCH DOES NOT APPLY"; exit 2; }
 go build ./... || { echo "DOES NOT COMPILE"; exit 2; }
+if [ -n "$FAST" ] && [ -f /verif/seeded/$P-${TAG:-}$M/meta.json ]; then
+  # already confirmed and stored: only run the check again and refresh check_run
+  mkdir -p /tmp/ev.out.$$
+  VERIF_REPO=$W VERIF_OUTDIR=/tmp/ev.out.$$ /verif/check $P "$@" > /tmp/ev.check.$$ 2>&1; RC=$?
+  grep -E "VIOLATION|oracle|OK:|HARNESS|note:" /tmp/ev.check.$$ | cut -c1-260 | head -6
+  CAUGHT=false; [ $RC = 1 ] && CAUGHT=true
+  ORACLES=$(grep -o "oracle [A-Z0-9]* ([^)]*)" /tmp/ev.check.$$ | sort -u | paste -sd';')
+  python3 - /verif/seeded/$P-${TAG:-}$M/meta.json "$CAUGHT" "$ORACLES" "$P" "$*" <<'PY'
+import json,sys
+f,caught,oracles,p,args=sys.argv[1:6]
+m=json.load(open(f)); m["check_run"]={"command":f"VERIF_REPO=<patched worktree> ./check {p} {args}".strip(),"caught":caught=="true","oracles":oracles}
+json.dump(m,open(f,'w'),indent=1)
+PY
+  echo "check-exit=$RC"; echo "re-run of /verif/seeded/$P-${TAG:-}$M (caught=$CAUGHT)"
+  rm -rf /tmp/ev.*.$$; exit 0
+fi
 SUITE=pass; go test -vet=off -count=1 ./... >/tmp/ev.suite.$$ 2>&1 || SUITE=FAIL
 cp $SRC/demo_test.go zz_demo_test.go
 DEMO=$(grep -o "^func Test[A-Za-z0-9_]*" zz_demo_test.go | sed 's/func //' | paste -sd'|')
